@@ -61,7 +61,7 @@ void random_ops(uint64_t seed) {
         case 3: crypto_box_keypair(pk, sk); break;
         case 4: crypto_sign_keypair(pk, sk); break;
         case 5: { void *p = sodium_malloc(1 + r.below(5000)); if (p) { sodium_mprotect_readonly(p); sodium_mprotect_readwrite(p); ((volatile unsigned char *) p)[0] = 1; sodium_free(p); } break; }
-        case 6: crypto_secretbox_keygen(buf); crypto_core_ed25519_scalar_random(buf); break;
+        case 6: crypto_secretbox_keygen(buf); crypto_core_ed25519_scalar_random(buf); if (r.below(2)) { randombytes_stir(); randombytes_buf(buf, 16); } break;   // an explicit re-seed while other threads draw
         default: { void *p = sodium_allocarray(3, 1 + r.below(100)); sodium_mprotect_noaccess(p); sodium_mprotect_readwrite(p); sodium_free(p); break; }
         }
     }
